@@ -125,6 +125,16 @@ def run_to_astm(stream, specs, ctx, per_class, r):
                 stream.fail(dict(case, error=type(e).__name__), "to_astm() raises for a record that renders as a dictionary",
                             "%s/to_astm-raises" % stream.name)
                 continue
+            # asking for one rendering does not change the record: the dictionary is the same afterwards
+            try:
+                d_after = obj.to_dict()
+            except Exception as e:  # noqa
+                d_after = "ERR " + type(e).__name__
+            if d_after != d:
+                stream.fail(dict(case, before=repr(d)[:200], after=repr(d_after)[:200]),
+                            "to_dict() gives another result after to_astm() was called on the same record",
+                            "%s/to_dict-after-to_astm" % stream.name)
+                continue
             flat = []
             for (name, _f), v in zip(cls._fields, av):
                 dv = d[name]
